@@ -330,9 +330,6 @@ class MemoryZone(object):
         # delete & update every overwritten zones
         # by adjusting [i,j]:
         if z.end in self._map[j]:
-            jj = self._map[j].copy()
-            jj.setlen(z.end - z.vaddr)
-            # h.insert(0,jj)
             self._map[j].trim(z.end)
         else:
             j += 1
